@@ -288,6 +288,20 @@ func LenOf(s *State, v ssa.Value, pred func(ssa.Value) bool) bool {
 	return pred(s.Canon(c.Call.Args[0]))
 }
 
+// MapLookupOf returns the map lookup that produced v: m[k] itself, or the value half of `v, ok := m[k]`.
+func MapLookupOf(v ssa.Value) *ssa.Lookup {
+	if e, ok := v.(*ssa.Extract); ok && e.Index == 0 {
+		if lk, ok := e.Tuple.(*ssa.Lookup); ok && lk.CommaOk {
+			return lk
+		}
+		return nil
+	}
+	if lk, ok := v.(*ssa.Lookup); ok && !lk.CommaOk {
+		return lk
+	}
+	return nil
+}
+
 // IsIntConst reports whether v is the integer constant n.
 func IsIntConst(v ssa.Value, n int64) bool {
 	k, ok := v.(*ssa.Const)
